@@ -28,7 +28,7 @@ def plain(x):
 
 
 def mem(cb=None):
-    m = Memory(cache, verbose=0, compress=compress)
+    m = Memory(cache, verbose=11 if phase.endswith("_verbose") else 0, compress=compress)
     return m, m.cache(c05funcs.f, cache_validation_callback=cb)
 
 
@@ -88,7 +88,7 @@ elif phase == "run":
         check(c, [1])
         m.clear(warn=False)
         check(c, [2])
-elif phase in ("recover", "recover_cb", "recover_udcb", "recover_shelve"):
+elif phase in ("recover", "recover_cb", "recover_udcb", "recover_shelve", "recover_shelve_verbose"):
     # 1) every file visible under its final name must be one complete, legitimate result
     bad = []
     for p in glob.glob(os.path.join(cache, "**", "output.pkl"), recursive=True):
@@ -107,7 +107,7 @@ elif phase in ("recover", "recover_cb", "recover_udcb", "recover_shelve"):
             return metadata["duration"] >= 0 and metadata["time"] > 0
 
         m, c = mem(expires_after(days=1) if phase == "recover_cb" else (user_cb if phase == "recover_udcb" else None))
-        if phase == "recover_shelve":
+        if phase.startswith("recover_shelve"):
             # recovery through references: call_and_shelve(x).get(), and check_call_in_cache must not promise what is not there
             expected = {x: c05funcs.f(x) for x in ARGS}
             runs = [0]
